@@ -30,13 +30,27 @@ func qfull(s string) string {
 	return "\"" + s + "\""
 }
 
+// mapSet: M[k] = v  ->  DVal "set(M,k,v)"
+func (e *symEnv) mapSet(s ast.Stmt) (string, bool) {
+	as, ok := s.(*ast.AssignStmt)
+	if !ok || len(as.Lhs) != 1 || len(as.Rhs) != 1 || as.Tok != token.ASSIGN {
+		return "", false
+	}
+	ix, ok := as.Lhs[0].(*ast.IndexExpr)
+	if !ok {
+		return "", false
+	}
+	return "DVal " + qfull("set("+e.sym(ix.X)+","+e.sym(ix.Index)+","+e.sym(as.Rhs[0])+")"), true
+}
+
 type symEnv struct {
+	inLoop bool
 	val  map[string]string // variable -> symbolic expression
 	pred map[string]string // boolean variable (ok) -> predicate it stands for
 }
 
 func (e *symEnv) clone() *symEnv {
-	n := &symEnv{val: map[string]string{}, pred: map[string]string{}}
+	n := &symEnv{val: map[string]string{}, pred: map[string]string{}, inLoop: e.inLoop}
 	for k, v := range e.val {
 		n.val[k] = v
 	}
@@ -240,6 +254,27 @@ func (e *symEnv) stmts(list []ast.Stmt, where string) []string {
 					}
 				}
 			}
+			// name, err := call(...) followed by if err != nil { return <an error built from err> }   (loop bodies)
+			if e.inLoop && len(s.Lhs) == 2 && len(s.Rhs) == 1 && src(s.Lhs[1]) == "err" && i+1 < len(list) {
+				if c, ok := s.Rhs[0].(*ast.CallExpr); ok {
+					if is, ok := list[i+1].(*ast.IfStmt); ok && is.Init == nil && is.Else == nil && src(is.Cond) == "err != nil" && len(is.Body.List) == 1 {
+						if rs, ok := is.Body.List[0].(*ast.ReturnStmt); ok && len(rs.Results) == 1 && strings.Contains(src(rs.Results[0]), "err") {
+							call := e.sym(c)
+							if x, ok := s.Lhs[0].(*ast.Ident); ok {
+								e.val[x.Name] = call
+							}
+							out = append(out, "DGuard "+qfull("fails("+call+")")+" false DErr")
+							i++
+							continue
+						}
+					}
+				}
+			}
+			// M[k] = v as the last statement of a loop body
+			if t, ok := e.mapSet(s); ok && e.inLoop && i == len(list)-1 {
+				out = append(out, "DRet ("+t+")")
+				continue
+			}
 			if !e.bind(s) {
 				unknown(s)
 			}
@@ -271,6 +306,8 @@ func (e *symEnv) stmts(list []ast.Stmt, where string) []string {
 					}
 				} else if isPanic(s.Body.List[0]) {
 					r = "DPanic"
+				} else if br, ok := s.Body.List[0].(*ast.BranchStmt); ok && br.Tok == token.CONTINUE && br.Label == nil && e.inLoop {
+					r = "DVal \"continue\""
 				}
 				if r != "" {
 					ds := disj(s.Cond)
@@ -380,6 +417,35 @@ func decisionOf(f *ast.File, recv, name, where string) string {
 	return "[DUnknown \"missing\"]"
 }
 
+// loopBodyOf: the body of the n-th loop "for K, V := range X" of function name, as a decision program over
+// one iteration (outcomes: "continue", set(M,k,v), an error, or falling off the end)
+func loopBodyOf(f *ast.File, name, rangeX string, nth int, where string) string {
+	for _, d := range f.Decls {
+		fd, ok := d.(*ast.FuncDecl)
+		if !ok || fd.Body == nil || fd.Name.Name != name {
+			continue
+		}
+		count := 0
+		var found *ast.RangeStmt
+		ast.Inspect(fd.Body, func(n ast.Node) bool {
+			if rs, ok := n.(*ast.RangeStmt); ok && src(rs.X) == rangeX && rs.Tok == token.DEFINE {
+				if count == nth && found == nil {
+					found = rs
+				}
+				count++
+			}
+			return true
+		})
+		if found == nil {
+			break
+		}
+		env := &symEnv{val: map[string]string{}, pred: map[string]string{}, inLoop: true}
+		return "[" + strings.Join(env.stmts(found.Body.List, where), ";\n   ") + "]"
+	}
+	noteUnknown(where, "loop over "+rangeX+" not found")
+	return "[DUnknown \"missing\"]"
+}
+
 func genDecisionSrc() {
 	var b strings.Builder
 	b.WriteString("(* GENERATED from /repo/decorator/resolver/{gotypes,goast}/resolver.go and decorator/decorator.go -- do not edit *)\nFrom Coq Require Import List String Bool.\nImport ListNotations.\nFrom DV Require Import Model.Decision.\nLocal Open Scope string_scope.\n\n")
@@ -396,6 +462,12 @@ func genDecisionSrc() {
 	fmt.Fprintf(&b, "Definition simple_resolvepackage_src : list dstmt :=\n  %s.\n\n", decisionOf(si, "RestorerResolver", "ResolvePackage", "simple.ResolvePackage"))
 	// the order in which the import manager names and lists packages
 	rf := parseNoComments(filepath.Join(*repo, "decorator/restorer.go"))
-	fmt.Fprintf(&b, "Definition packagepathorderless_src : list dstmt :=\n  %s.\n", decisionOf(rf, "", "packagePathOrderLess", "restorer.go packagePathOrderLess"))
+	fmt.Fprintf(&b, "Definition packagepathorderless_src : list dstmt :=\n  %s.\n\n", decisionOf(rf, "", "packagePathOrderLess", "restorer.go packagePathOrderLess"))
+	// the loops of updateImports that compute the effective alias of every path, mark anonymous imports as
+	// required and resolve the names of the packages in use: one decision program per loop body
+	fmt.Fprintf(&b, "Definition effalias_found_src : list dstmt :=\n  %s.\n\n", loopBodyOf(rf, "updateImports", "importsFound", 0, "restorer.go updateImports loops"))
+	fmt.Fprintf(&b, "Definition effalias_manual_src : list dstmt :=\n  %s.\n\n", loopBodyOf(rf, "updateImports", "r.Alias", 0, "restorer.go updateImports loops"))
+	fmt.Fprintf(&b, "Definition anonymous_required_src : list dstmt :=\n  %s.\n\n", loopBodyOf(rf, "updateImports", "effectiveAlias", 0, "restorer.go updateImports loops"))
+	fmt.Fprintf(&b, "Definition resolve_names_src : list dstmt :=\n  %s.\n", loopBodyOf(rf, "updateImports", "packagesInUseOrdered", 0, "restorer.go updateImports loops"))
 	writeIfChanged("DecisionSrc.v", b.String())
 }
